@@ -1160,6 +1160,10 @@ func (c *Compiler) writeCopy(node *node, l, r string, depth int) error {
 					c.wl("if ", nl, "==nil{")
 					c.wl(nl, "=&", c.fmtT(ch), "{}")
 					c.wl("}")
+				} else {
+					c.wl("if ", nl, "==nil{")
+					c.wl(nl, "=new(", c.fmtT(ch), ")")
+					c.wl("}")
 				}
 			}
 			_ = c.writeCopy(ch, nl, nr, depth+1)
